@@ -12,6 +12,9 @@ Tie: correspondence of parse_merchants / parse_sections (in-process) against the
 Oracle on the implementation alone:
   * every rendering of an abstract file parses to the canonical content of that abstract file
     (⇒ layout edits are neutral, one rule per section with exactly the stated properties, file order);
+  * tags: a list of CLOSED tags (parentheses balance, no comma outside them; dynamic {expression} tags with calls nested to
+    depth 3, commas at any depth, string literals holding commas / parentheses / braces) joined by commas parses to exactly
+    those tags (in abstract files and in a dedicated stream of one-rule files; Props/C17 `tags_exactly_the_stated`);
   * the rejection list: missing match / filter, unknown property, malformed let / field / priority,
     syntactically invalid expression ⇒ ParseError carrying the expected line number;
   * command level: `python -m tally up` on a budget whose merchants.rules does not parse must tell the
@@ -62,10 +65,166 @@ BLANKS = ['', '   ', '\t', ' ', ' \x0b ']
 FEATURES_M = ['comments', 'blanks', 'indent', 'hindent', 'trailing', 'crlf', 'keycase', 'permute', 'spacing', 'hpad']
 FEATURES_V = ['comments', 'blanks', 'indent', 'trailing', 'crlf', 'permute', 'spacing', 'hpad']
 
+# ------------------------------------------------------------------ tags: static and dynamic, with nested calls
+# `tags:` is a comma-separated list in which a comma INSIDE parentheses belongs to the tag (dynamic tags are `{expression}`, and
+# an expression may call functions with several arguments, nest calls to any depth, and contain string literals that themselves
+# hold commas, parentheses - regex groups -, braces, brackets, colons).  Quotes, braces and brackets do NOT protect a comma; only
+# parentheses do.  Every tag generated here is "closed": its parentheses balance (never below 0) and it has no comma outside them,
+# so the stated tags of a line are unambiguous: the tags that were joined.  `split_tags_spec` is the harness's own reading of that
+# rule (used to cross-check the generator and as the oracle on free-form values).
+TAG_STRS = ['" "', '"REF (\\d+)"', '"PROJ:(\\w+)"', '"a, b"', '"(x), (y)"', '"{k}"', '"}"', '"{"', '"[,]"', '"#1, #2"', "'SQ *, (INC)'",
+            '"a=b: c"', '"((a)|(b)),c"', '","', '"()"', '"-"', '"(?:X|Y)+,\\s*(\\d{1,3})"', "', '"]
+TAG_ATOMS = ['field.memo', 'field.holder', 'field.txn_type', 'description', 'source', 'amount', '0', '1', '-1', 'trade[0][\'term\']',
+             'merchant', 'x']
+TAG_FUNCS = [('extract', 2), ('split', 3), ('lowercase', 1), ('uppercase', 1), ('lower', 1), ('replace', 3), ('regex_replace', 3),
+             ('trim', 1), ('substring', 3), ('concat', 2), ('f', 4), ('strip_prefix', 2)]
+
+
+REF_TAGS = ['{field.txn_type}', '{source}', '{extract(field.memo, "PROJ:(\\w+)")}', "{trade[0]['term']}",
+            '{split(field.holder, lowercase(" "), 0)}', '{extract(field.memo, "REF (\\d+)")}', '{lower(split(field.holder, " ", 0))}',
+            '{extract(description, "#(\\d+), (\\w+)")}', '{regex_replace(field.memo, "\\s*\\(.*\\)", "")}']
+
+
+def gen_tag_expr(r, depth):
+    k = r.random()
+    if depth <= 0 or k < 0.25:
+        return r.choice(TAG_ATOMS) if r.random() < 0.5 else r.choice(TAG_STRS)
+    if k < 0.33:
+        return f'({gen_tag_expr(r, depth - 1)} {r.choice(["+", "or", "if x else"])} {gen_tag_expr(r, depth - 1)})'
+    fn, n = r.choice(TAG_FUNCS)
+    sep = r.choice([', ', ', ', ',', ' , '])
+    return f'{fn}(' + sep.join(gen_tag_expr(r, depth - 1) for _ in range(n)) + ')'
+
+
+def gen_tag(r):
+    """one closed tag: a plain word, a static tag with (nested) parentheses, or a dynamic {expression} tag"""
+    k = r.random()
+    if k < 0.25:
+        return r.choice(TAGS)
+    if k < 0.4:          # the reference's own examples and their neighbours
+        return r.choice(REF_TAGS)
+    if k < 0.5:
+        return r.choice(['tax(a, (b, c))', 'reimb((1,2),(3,(4,5)))', 'a(b)(c, d)', 'x (y, (z)) w', '((,))', 'f(",", g(1, 2))'])
+    e = gen_tag_expr(r, r.choice([1, 1, 2, 2, 3]))
+    for _ in range(20):
+        if len(e) <= 160:
+            break
+        e = gen_tag_expr(r, 2)
+    if '(' not in e and r.random() < 0.7:
+        fn, n = r.choice(TAG_FUNCS)
+        e = f'{fn}(' + ', '.join([e] + [gen_tag_expr(r, 2) for _ in range(n - 1)]) + ')'
+    return r.choice(['{%s}', '{%s}', '{ %s }', '%s']) % e
+
+
+def split_tags_spec(value):
+    """the documented rule, written from the documentation: tags are separated by the commas that are not inside parentheses; each is
+    trimmed; empty ones do not count; a set"""
+    depth, start, parts = 0, 0, []
+    for i, ch in enumerate(value):
+        depth += (ch == '(') - (ch == ')')
+        if ch == ',' and depth == 0:
+            parts.append(value[start:i])
+            start = i + 1
+    parts.append(value[start:])
+    return sorted({p.strip() for p in parts} - {''})
+
+
+def closed_tag(t):
+    depth = 0
+    for ch in t:
+        depth += (ch == '(') - (ch == ')')
+        if depth < 0 or (ch == ',' and depth == 0):
+            return False
+    return depth == 0 and t == t.strip() and t != ''
+
+
+def gen_tags_list(r):
+    """1-4 distinct closed tags; at least one has a comma inside parentheses that is followed by a further '(' (a nested call or a
+    parenthesis inside a string literal in a LATER argument) in half of the lists"""
+    for _ in range(50):
+        tags = []
+        for _ in range(r.choice([1, 2, 2, 3, 4])):
+            t = gen_tag(r)
+            if t not in tags:
+                tags.append(t)
+        if all(closed_tag(t) for t in tags) and split_tags_spec(', '.join(tags)) == sorted(set(tags)):
+            return tags
+    return ['recurring']
+
+
+def tag_features(tags):
+    """what a list of closed tags exercises (for the evidence)"""
+    f = set()
+    for t in tags:
+        depth, maxd, in_args_comma = 0, 0, False
+        for i, ch in enumerate(t):
+            depth += (ch == '(') - (ch == ')')
+            maxd = max(maxd, depth)
+            if ch == ',' and depth > 0:
+                f.add('comma-inside-parentheses')
+                rest = t[i + 1:]
+                j, k = rest.find('('), rest.find(')')
+                if j != -1 and (k == -1 or j < k):
+                    f.add('comma-followed-by-a-deeper-parenthesis')
+                if depth >= 2:
+                    f.add('comma-at-depth>=2')
+        if maxd >= 2:
+            f.add('nested-parentheses')
+        if maxd >= 3:
+            f.add('depth>=3')
+        if re.search(r'''["'][^"']*[(),][^"']*["']''', t):
+            f.add('comma-or-parenthesis-inside-a-string-literal')
+        if re.search(r'''["'][^"']*[{}\[\]][^"']*["']''', t):
+            f.add('brace-or-bracket-inside-a-string-literal')
+        if t.startswith('{') and t.endswith('}'):
+            f.add('dynamic')
+    if len(tags) >= 3:
+        f.add('>=3-tags-on-the-line')
+    return f
+
+
+def tags_line_case(r):
+    """a one-rule file whose tags: value is a list of closed tags joined in various ways -> (text, required outcome, features)"""
+    tags = gen_tags_list(r)
+    sep = r.choice([', ', ',', ' , ', ',  ', '\t,'])
+    value = sep.join(tags)
+    k = r.random()
+    if k < 0.15:
+        value = value + r.choice([',', ' ,', ', ,'])
+    elif k < 0.3:
+        value = r.choice([',', ', ']) + value
+    elif k < 0.4 and len(tags) >= 2:
+        value = (sep + r.choice([',', ' , '])).join(tags)             # an empty item between two tags
+    name = r.choice(M_NAMES)
+    cat = r.choice([None, None, 'Food'])
+    lines = [f'[{name}]', 'match: ' + M_OK[0]] + ([f'category: {cat}'] if cat else []) + [r.choice(['tags: ', 'tags:', 'Tags : ', 'TAGS:\t']) + value]
+    if r.random() < 0.3:
+        lines.insert(1, lines.pop())                                    # tags before match
+    text = '\n'.join(lines) + '\n'
+    want = {'ok': {'rules': [{'name': name.strip(), 'merchant': name.strip(), 'category': cat or '', 'subcategory': '',
+                              'tags': sorted(set(tags)), 'priority': 50, 'match': M_OK[0], 'lets': [], 'fields': []}],
+                   'vars': [], 'transforms': []}}
+    assert split_tags_spec(value) == sorted(set(tags)), value        # the generator's own consistency: the two readings agree
+    return text, want, tag_features(tags)
+
+
+def wild_tags_value(r):
+    """a tags value that is NOT a list of closed tags (a parenthesis dropped, doubled or turned round, a comma or a quote at depth 0):
+    what the stated tags are is then a matter of the loop's exact behaviour - correspondence with the model only, no oracle"""
+    v = ', '.join(gen_tags_list(r))
+    for _ in range(r.choice([1, 1, 2])):
+        pos = [i for i, ch in enumerate(v) if ch in '(),"{}']
+        if not pos:
+            break
+        i = r.choice(pos)
+        v = r.choice([v[:i] + v[i + 1:], v[:i] + v[i] + v[i:], v[:i] + {'(': ')', ')': '(', ',': ';'}.get(v[i], ',') + v[i + 1:]])
+    return v
+
+
 # ------------------------------------------------------------------ abstract files
 
 
-def gen_mfile(r, nsec=None):
+def gen_mfile(r, nsec=None, rich_tags=0.5):
     top = []
     vn = r.sample(VAR_NAMES, r.choice([0, 0, 1, 2, 3]))
     for n in vn:
@@ -78,6 +237,8 @@ def gen_mfile(r, nsec=None):
         props = [('match', r.choice(M_OK))]
         tag_only = r.random() < 0.3
         tags = r.sample(TAGS, r.choice([1, 2, 3])) if (tag_only or r.random() < 0.5) else None
+        if tags is not None and r.random() < rich_tags:
+            tags = gen_tags_list(r)
         if not tag_only:
             props.append(('category', r.choice(CATS)))
             if r.random() < 0.6:
@@ -606,10 +767,26 @@ def run(ctx):
               ('v', 'a = 1\na = 2\n[S]\nb = 1\nfilter: a\nfilter: b\ndescription: d\ndescription: e\n'),
               ('m', ''), ('v', ''), ('m', '\n\n'), ('m', '[A]\r\nmatch: x\r\ncategory: c\r\n'), ('v', '[A]\r\nfilter: x\r\n')]
     corpus += [('m', f'[A]\nmatch: x\ncategory: c\npriority: {p}\n') for p in ints]
+    corpus += [('m', f'[A]\nmatch: x\ntags: {v}\n') for v in REF_TAGS + ['a, {"b,c"}, d', '{f(")")}, x, (y', '{[a, b]}, {c: (d, e), f}', 'a(,),(,)b,,(', ')a,b(']]
     cases, kinds, labels = [], [], []
     for k, t in corpus:
         cases.append(t); kinds.append(k); labels.append('corpus')
     prop_fail, evals, nontriv, feat_hist = [], 0, set(), {}
+    # ---- tags lines: closed tags with nested calls / string literals (oracle + correspondence), wild values (correspondence only)
+    tag_hist, n_tag_lines = {}, (300 if ctx.quick else 6000)
+    for _ in range(n_tag_lines):
+        text, want, tf = tags_line_case(r)
+        for f in tf:
+            tag_hist[f] = tag_hist.get(f, 0) + 1
+        got = impl_parse('m', text)
+        evals += 1
+        if got != want:
+            prop_fail.append({'class': 'tags:not-the-stated-tags', 'kind': 'm', 'text': text, 'observed': got, 'required': want})
+        cases.append(text); kinds.append('m'); labels.append('tags')
+        if len(want['ok']['rules'][0]['tags']) >= 2 and 'comma-inside-parentheses' in tf:
+            nontriv.add(text)
+    for _ in range(n_tag_lines // 3):
+        cases.append(f'[W]\nmatch: x\ntags: {wild_tags_value(r)}\n'); kinds.append('m'); labels.append('tags-wild')
     for i in range(nfiles):
         F = gen_mfile(r) if i % 2 == 0 else gen_vfile(r)
         kind = F['kind']
@@ -687,11 +864,20 @@ def run(ctx):
                        'plain, with each single layout feature and with random feature combinations by a renderer that shares no code with '
                        'the parsers; targeted single-point corruptions with a known verdict (rejection list) and untargeted ones (line '
                        'delete/duplicate, character delete/insert, token alteration); non-trivial = rendering of a file with ≥ 2 sections, '
-                       'at least one let/field/priority/variable and ≥ 2 layout features, or a targeted corruption (error line ≠ trivial)')
+                       'at least one let/field/priority/variable and ≥ 2 layout features, or a targeted corruption (error line ≠ trivial). '
+                       'tags: half of the rules that carry tags, and a stream of one-rule files, take 1–4 CLOSED tags (parentheses balance, no comma '
+                       'outside them) from a generator of static tags with nested parentheses and dynamic {expression} tags: calls of 1–4 arguments '
+                       'nested to depth 3, commas at any depth, a nested call or a parenthesised string literal AFTER an argument comma, string '
+                       'literals holding commas / parentheses (regex groups) / braces / brackets / colons, the reference\'s own examples; joined with '
+                       'varying separators, empty items, leading / trailing commas; required = the tags that were joined (cross-checked against the '
+                       'harness\'s own depth-0 splitter); values that are not lists of closed tags (a parenthesis dropped / doubled / reversed) go '
+                       'through the model correspondence only; tags non-trivial = ≥ 2 tags and a comma inside parentheses')
     ctx.notes['streams'] = {l: labels.count(l) for l in sorted(set(labels))}
     ctx.notes['model_error_kinds'] = err_kinds
     ctx.notes['impl_outcomes'] = outcomes
     ctx.notes['layout_features_rendered'] = feat_hist
+    ctx.notes['tags_lines'] = {'closed_tag_lines(oracle + correspondence)': n_tag_lines, 'wild_values(correspondence only)': n_tag_lines // 3,
+                               'lines_with_feature': dict(sorted(tag_hist.items()))}
     ctx.notes['unmodelled_expression_exceptions'] = unmodelled
     ctx.notes['command_runs'] = cmd_runs
     for t, k, l in list(zip(cases, kinds, labels))[len(corpus):len(corpus) + 400:97]:
@@ -704,6 +890,10 @@ def run(ctx):
             pf, k = oracle_file(F, r, 4)
             n += k
             out.extend(pf)
+            text, want, _ = tags_line_case(r)
+            got = impl_parse('m', text)
+            if got != want:
+                out.append({'class': 'tags:not-the-stated-tags', 'kind': 'm', 'text': text, 'observed': got, 'required': want})
             if len(out) >= 3:
                 break
         for label, txt in CMD_CORRUPT:
